@@ -866,9 +866,10 @@ theorem addHeaders_local (d : BDir) (anc : List Up) (i : IId)
   | error m => local_tac hh hg
   | ok j => cases hi j hh; local_tac hh hg
 
-theorem addTags_local (d : BDir) (i : IId) : LocalAt i (addTags d) := by
+theorem addTags_local (d : BDir) (anc : List Up) (i : IId) : LocalAt i (addTags d anc) := by
   intro c c' _ hd
   unfold addTags
+  split; · exact Or.inl ⟨_, _, rfl, rfl⟩
   rw [tagsFromDirective_decl hd d]
   cases tagsFromDirective c d with
   | error e => exact Or.inl ⟨_, _, rfl, rfl⟩
@@ -1080,8 +1081,10 @@ theorem addProtocol_sim (d : BDir) (anc : List Up) {c c' : Cat} (h : Sim c c') :
       show (p.d.id :: c'.protoURLs).contains n = (p.d.id :: c.protoURLs).contains n
       rw [List.contains_cons, List.contains_cons, h.proto n]
 
-theorem addTags_sim (d : BDir) {c c' : Cat} (h : Sim c c') : RRel Sim (addTags d c) (addTags d c') := by
+theorem addTags_sim (d : BDir) (anc : List Up) {c c' : Cat} (h : Sim c c') :
+    RRel Sim (addTags d anc c) (addTags d anc c') := by
   unfold addTags
+  split; · exact RRel.fail
   rw [tagsFromDirective_rel tagFrame_rel h.tags d]
   apply RRel.bind_same; intro _
   exact h
@@ -1249,7 +1252,7 @@ theorem addDirective_sim (banned : List Kind) (d : BDir) (kids : List BDir) (anc
       | exact addProtocol_sim d anc h
       | exact addJsonRpcMethod_sim d kids anc h
       | exact localAt_sim (addRpcSchema_local _ d anc _ (idOr_spec _)) h
-      | exact addTags_sim d h
+      | exact addTags_sim d anc h
       | exact RRel.ok h
 
 /-- the simulation is kept by the fold over a forest -/
